@@ -12,7 +12,7 @@ TRUSTED = "Trusted base: TLC 1.8, numpy/scipy, OpenMDAO's compute_totals assembl
 CHECKS = {
     "C03": (
         "model_checking",
-        "TLC complete state graph of OASLifecycle over the component table extracted from the tree + replay of every emitted history into real Problems (live vs fresh)",
+        "TLC complete state graph of OASLifecycle over the component table extracted from the tree + replay of every emitted history into real Problems (live vs fresh) + TraceLifecycle validation of recorded executions (own histories and the repository's optimisation tests as drivers)",
         "OASLifecycle is finite-state over three design points, so TLC explores every reachable abstract state and emits model-level counterexamples; every API-call history up to the depth bound (plus random long ones) is replayed on real aero / aerostructural / multipoint / structural Problems and compared with a freshly built Problem after every step.",
         "Bounds: 3 design points, histories <= 4 (quick) / 6 + 150 random of length 12 (thorough); tolerances rel 1e-9; model kinds listed in evidence. " + TRUSTED,
         "5 C03, 3.3, 4.1, 4.4",
@@ -121,6 +121,13 @@ CHECKS = {
         "All 69 variants of the documented mesh, surface (per model kind) and multi-section dictionaries are stepped through generate_mesh / group constructors / Problem.setup / run_model in the spec and on the real API: a malformed variant must stop with an exception before any number is produced, unknown keys must be warned about; interleavings of the API calls of an aerodynamic and an aerostructural Problem up to depth 4/5 must leave each Problem bit-identical to the same Problem run alone; admissible configurations must give finite outputs, be repeatable between independent Problems and leave every user array unchanged (SHA-1).",
         "Which of several fatal defects is reported first, and whether a warning precedes an error, is not part of the contract (spec is nondeterministic there); any exception class counts as loud. " + TRUSTED,
         "5 C20, 3.2",
+    ),
+    "C12": (
+        "model_checking",
+        "TLC: OASCoupled (dataflow, one feedback per surface, newest-version reads, sweep consistency) + TraceCoupled trace validation of recorded real coupled solves (every component execution, fingerprints of all inputs/outputs) + open-loop re-evaluation, solver/guess/order independence, multipoint isolation, rigid limit",
+        "The required dataflow of the coupled group is a spec-level table checked for 1-3 surfaces; real coupled solves (NLBGS, NLBGS+Aitken, Newton; 1-2 surfaces; tube/wingbox; weight relief) are recorded by external wrappers and every event is validated against the wires and the sweep order by TLC (a corrupted fingerprint or swapped execution is rejected: binding demonstration run on every check); converged states are re-evaluated open loop with stand-alone instances of the code's own groups; nine nonlinear x linear solver combinations, perturbed initial guesses and returning from another design point give the same outputs and totals; point 0 of a two-point model is bit-identical under changes of point 1 and equal to the single-point model; E,G x 10^k converges to the rigid AeroPoint as 1/E.",
+        "Relaxed/Newton-updated feedback values are a named deviation of the trace spec (only forward wires are exact there); non-convergent combinations are inconclusive, not violations. " + TRUSTED,
+        "5 C12, 3.4, 4.2",
     ),
 }
 PENDING = {}
